@@ -9,7 +9,6 @@
 #include "teakra/disassembler.h"
 #include "teakra/disassembler_c.h"
 
-int makedsp1_main(int argc, char** argv);
 
 namespace txt {
 using namespace isa;
@@ -188,11 +187,20 @@ struct C05 {
         std::string src = repo + "/hwtest/" + name + "/firm/source", bin = repo + "/hwtest/" + name + "/data/cdc.bin";
         std::string rp = "c05 firmware " + name;
         std::string outp = tmpdir + "/" + name + ".cdc.bin";
-        char a0[] = "makedsp1";
-        std::vector<char> a1(src.begin(), src.end()), a2(outp.begin(), outp.end());
-        a1.push_back(0), a2.push_back(0);
-        char* argvv[] = {a0, a1.data(), a2.data(), nullptr};
-        int rc = makedsp1_main(3, argvv);
+        // the real tool, as a child process
+        std::string tool = ExeDir() + "/makedsp1";
+        int rc = -1;
+        std::fflush(nullptr);
+        pid_t pid = fork();
+        if (pid == 0) {
+            int nul = open("/dev/null", O_WRONLY);
+            dup2(nul, 1), dup2(nul, 2);
+            execl(tool.c_str(), "makedsp1", src.c_str(), outp.c_str(), (char*)nullptr);
+            _exit(127);
+        }
+        int st = 0;
+        waitpid(pid, &st, 0);
+        rc = WIFEXITED(st) ? WEXITSTATUS(st) : 128 + WTERMSIG(st);
         ++res.evaluations, ++res.transitions, ++res.traces_validated;
         auto slurp = [](const std::string& p) {
             std::ifstream f(p, std::ios::binary);
@@ -571,6 +579,7 @@ inline int Replay(const std::string& r, Result& res, const std::string& repo) {
 
 int main(int argc, char** argv) {
     verif::Args args = verif::Args::Parse(argc, argv);
+    const bool shard_replay = verif::ParseShardReplay(args);
     verif::Result res;
     res.tier = args.tier;
     res.seed = args.seed;
@@ -671,5 +680,5 @@ int main(int argc, char** argv) {
         std::fprintf(stderr, "usage: text c05|c02\n");
         return 2;
     }
-    return res.Write(args.out.c_str()) ? 0 : 2;
+    return verif::Finish(args, res, shard_replay);
 }
